@@ -1411,13 +1411,27 @@ class PackBasedObjectStore(PackCapableObjectStore, PackedObjectContainer):
 
     def __iter__(self) -> Iterator[ObjectID]:
         """Iterate over the SHAs that are present in this store."""
-        self._update_pack_cache()
-        for pack in self._iter_cached_packs():
-            try:
-                yield from pack
-            except PackFileDisappeared as exc:
-                self._evict_pack(exc.obj)
+        # Loose objects first, then the packs, rescanning the pack directory
+        # until no new pack shows up: a concurrent repack moves objects from
+        # loose files and old packs into a new pack, so whatever vanishes
+        # from a place already visited is found in a pack visited later.
         yield from self._iter_loose_objects()
+        visited: set[str] = set()
+        while True:
+            self._update_pack_cache()
+            todo = [
+                (name, pack)
+                for name, pack in list(self._pack_cache.items())
+                if name not in visited
+            ]
+            if not todo:
+                break
+            for name, pack in todo:
+                visited.add(name)
+                try:
+                    yield from pack
+                except PackFileDisappeared as exc:
+                    self._evict_pack(exc.obj)
         yield from self._iter_alternate_objects()
 
     def contains_loose(self, sha: ObjectID) -> bool:
